@@ -28,6 +28,7 @@ class Spy:
         self.opened = 0
         self.closed = 0
         self.stat_patch = None  # callable(path, stats) -> stats
+        self.current = None
         self.enabled = True
 
     def reset_counters(self):
@@ -54,10 +55,14 @@ class Spy:
         g = self.gates.get(k)
         if g is None and name in self.gate_name and self.gate_name[name][0] == occ:
             g = self.gate_name[name][1]
-        if g is not None:
-            await g.wait()
-        if self.delay:
-            await asyncio.sleep(self.delay)
+        self.current = name  # the backend call a task is suspended in (gate / latency), if any
+        try:
+            if g is not None:
+                await g.wait()
+            if self.delay:
+                await asyncio.sleep(self.delay)
+        finally:
+            self.current = None
         exc = self.fail_at.get(k)
         if exc is None:
             fn = self.fail_name.get(name)
